@@ -417,8 +417,12 @@ def dtype_cases(ctx):
         cls = ctx.rng.choice([sf.Index, sf.IndexGO])
         form = ctx.rng.choice(['list', 'tuple', 'generator'])
         given = {'list': lambda: list(raw), 'tuple': lambda: tuple(raw), 'generator': lambda: (x for x in raw)}[form]
-        probes = list(dict.fromkeys([repr(x) for x in raw + cast]))   # order-preserving de-dup by repr
-        probes = [x for x in raw + cast if repr(x) in probes and not probes.remove(repr(x))][:8] + ['zz', 7]
+        seen, probes = set(), []
+        for x in raw + cast:                                          # order-preserving de-duplication by repr
+            if repr(x) not in seen:
+                seen.add(repr(x))
+                probes.append(x)
+        probes = probes[:8] + ['zz', 7]
         obs, ix = robs_lit(lambda: cls(given(), dtype=dt), probes)
         tags = {'route': 'Index(dtype)'}
         if changed:
@@ -1056,61 +1060,43 @@ def hier_derive_cases(ctx):
 
 
 def ihgo_append_cases(ctx):
-    '''IndexHierarchyGO.append inside the class where the appended label continues the tree order (extends the last
-    group at some depth, or opens a new outermost group) or repeats the last label; other appends are D4 (C05/C09).'''
+    '''IndexHierarchyGO.append histories with ARBITRARY appended labels (continuing the tree order, re-entering an
+    earlier group, duplicates, wrong depth): judged by the specification S_hgo_run (accepted iff the table stays a
+    duplicate-free tree-ordered table).  The tree surgery of IndexLevelGO.append itself is modelled by C05/C09.'''
     import static_frame as sf
-    pools_by = [['a', 'b', 'c', 'd', 'e'], [1, 2, 3, 4, 5], ['x', 'y', 'z', 'w']]
-    for _ in range(ctx.n(40, 600)):
-        depth = ctx.rng.choice([2, 3])
+    pools_by = [['a', 'b', 'c', 'd'], [1, 2, 3, 4], ['x', 'y', 'z']]
+    for _ in range(ctx.n(60, 900)):
+        depth = ctx.rng.choice([2, 2, 3])
         pools = pools_by[:depth]
         table = random_tree_labels(ctx.rng, depth, [p[:3] for p in pools])[:6]
         ih = sf.IndexHierarchyGO.from_labels(table)
-        labels = list(table)
-        ops, expected_ok, outs = [], [], []
+        ops, outs = [], []
         for _ in range(ctx.rng.choice([1, 2, 3, 5])):
-            last = labels[-1]
             r = ctx.rng.random()
-            if r < 0.15:
-                new = last                                   # duplicate of the last label: must be rejected
+            current = [tuple(iter_items(x)) for x in ih] if r < 0.5 else table
+            last = current[-1]
+            if r < 0.45:
+                keep = ctx.rng.randrange(0, depth)           # continue the last group at some depth
+                new = tuple(last[:keep]) + tuple(ctx.rng.choice(p) for p in pools[keep:])
+            elif r < 0.9:
+                new = tuple(ctx.rng.choice(p) for p in pools)   # anything: may re-enter an earlier group or be held
             else:
-                keep = ctx.rng.randrange(0, depth)           # keep the first `keep` components of the last label
-                cand = None
-                for _try in range(20):
-                    tail = tuple(ctx.rng.choice(p) for p in pools[keep:])
-                    c = tuple(last[:keep]) + tail
-                    # must not re-enter an existing non-last group at any depth, and not be held
-                    if c in labels:
-                        continue
-                    ok = True
-                    for p in range(1, depth):
-                        shares = [x for x in labels if x[:p] == c[:p]]
-                        if shares and labels[-1][:p] != c[:p]:
-                            ok = False
-                    if ok:
-                        cand = c
-                        break
-                if cand is None:
-                    continue
-                new = cand
+                new = tuple(ctx.rng.choice(p) for p in pools)[:depth - 1] if ctx.rng.random() < 0.5 else tuple(ctx.rng.choice(p) for p in pools) + (1,)
             if ctx.rng.random() < 0.3:
                 len(ih)
             try:
                 ih.append(new)
                 outs.append(True)
-            except Exception as e:  # noqa
+            except Exception:  # noqa
                 outs.append(False)
-            exp = new not in labels
-            expected_ok.append(exp)
-            if exp:
-                labels.append(new)
             ops.append(new)
         rows = [tuple(ctx.rng.choice(p) for p in pools) for _ in range(2)]
-        probes = hier_probes(ctx.rng, labels, rows)
-        obs = f'(Ok {reading(hobs_lit, ih, probes)})'
-        ctx.count('ihgo:append-history')
-        yield Case('api:ihgo-append', {'initial': repr(table), 'appended': repr(ops), 'outcomes': outs, 'expected_table': repr(labels), 'observed': obs[:300]},
-                   s=f'chk_S_hier {ll(labels)} {ll(probes)} {obs}',
-                   py_fail=None if outs == expected_ok else f'append outcomes {outs}, the property demands {expected_ok} (accepted iff the label is not held)',
+        final = [tuple(iter_items(x)) for x in reading(list, ih)]
+        probes = hier_probes(ctx.rng, final, rows)
+        obs = reading(hobs_lit, ih, probes)
+        ctx.count('ihgo:append-history', f'ihgo:accepted={sum(outs)}', f'ihgo:rejected={len(outs) - sum(outs)}')
+        yield Case('api:ihgo-append', {'initial': repr(table), 'appended': repr(ops), 'outcomes': outs, 'observed': obs[:300]},
+                   s=f'chk_S_hier_go {ll(table)} {ll(ops)} {lit.lst([lit.b(x) for x in outs])} {ll(probes)} {obs}',
                    tags={'route': 'IHGO.append'})
 
 
